@@ -16,7 +16,7 @@ package gtree
 //@ func gtree.rootGenerator.generate
 //@   requires ok: wgenOK(rg)
 //@   requires start: rg.scanner.pos == 0 && len(lnNodes) == 0
-//@   modifies Node.children, Node.parent, list.List.view, list.Element.backOf, rg.counter.n, rg.scanner.pos, rg.scanner.failed, rg.nodeGenerator.parser.isSharpRoot, rg.nodeGenerator.parser.spaces, rg.nodeGenerator.parser.sep, lnNodes
+//@   modifies Node.children, Node.parent, list.List.view, list.Element.backOf, rg.counter.n, rg.scanner.pos, rg.scanner.failed, rg.nodeGenerator.parser.isSharpRoot, rg.nodeGenerator.parser.spaces, rg.nodeGenerator.parser.sep, lnNodes, rg.counter.mu.wheld, markdown.Parser.mu.wheld
 //@   after generate: lnNodes := (result0 == nil && result1 == nil) ? lnNodes ++ seqof(nil) : lnNodes
 //@   after push: lnNodes := lnNodes ++ seqof(arg0)
 //@   after dfs: lnNodes := result ? lnNodes ++ seqof(as(last(recv.nodes.view), Node)) : lnNodes
@@ -209,7 +209,7 @@ func specWasmDryReport(ext []string, roots []*Node, i int) string {
 //@   ghostset wasmDryCalls := old(wasmDryCalls) + 1
 //@   ghostset wasmDryRoots := roots
 //@   requires validated [C17]: lastConfig != nil && (lastConfig.encode == encodeDefault ==> (forall k int :: {roots[k]} 0 <= k && k < len(roots) ==> validated(roots[k])))
-//@   modifies out, wfail, counter.n, Node.name, wasmDryCalls, wasmDryRoots
+//@   modifies out, wfail, counter.n, Node.name, wasmDryCalls, wasmDryRoots, counter.mu.wheld, counter.mu.rheld
 // JSON output of the wasm variant: the same facts as formattedSpreaderSimple.spread[jsonNode] of the default build: one
 // encoder per call, Encode once per root, in order, with a record whose first level mirrors the root.
 //@ func gtree.Node.toJSONNode
@@ -241,7 +241,7 @@ func specWasmDryReport(ext []string, roots []*Node, i int) string {
 
 // Output of the wasm variant: the same rendering clause as OutputFromMarkdown of the default build.
 //@ func gtree.Output
-//@   modifies Node.children, Node.parent, Node.brnch.value, Node.brnch.path, Node.name, list.List.view, list.Element.backOf, counter.n, lastConfig, bufio.Scanner.pos, bufio.Scanner.failed, markdown.Parser.isSharpRoot, markdown.Parser.spaces, markdown.Parser.sep, out, wfail, lnNodes, encTrace, encoders, jsonNode.Children, wasmDryCalls, wasmDryRoots
+//@   modifies Node.children, Node.parent, Node.brnch.value, Node.brnch.path, Node.name, list.List.view, list.Element.backOf, counter.n, lastConfig, bufio.Scanner.pos, bufio.Scanner.failed, markdown.Parser.isSharpRoot, markdown.Parser.spaces, markdown.Parser.sep, out, wfail, lnNodes, encTrace, encoders, jsonNode.Children, wasmDryCalls, wasmDryRoots, counter.mu.wheld, counter.mu.rheld, markdown.Parser.mu.wheld, defaultSpreaderPipeline.Mutex.held
 //@   use lemma lemmaBakedAllIsRenderAll
 //@   ensures render [C17]: exists c *config :: {witness(cfg)} fresh(c) && (c.encode == encodeDefault && !c.dryrun && result == nil ==> wfail == old(wfail) && (exists rs []*Node :: {witness(roots)} allRoots(rs) && out[w] == old(out[w]) ++ specRenderAll(c.lastNodeFormat, c.intermedialNodeFormat, rs, len(rs))))
 //@   ensures dry [C17]: exists c *config :: {witness(cfg)} fresh(c) && (c.dryrun && result == nil ==> wasmDryCalls == old(wasmDryCalls) + 1 && allRoots(wasmDryRoots))
